@@ -361,6 +361,8 @@ pub struct NodeSpec {
     pub user_outbound_layer: bool,
     /// ... which holds every request back for this long before forwarding it (a throttle)
     pub user_outbound_delay: Duration,
+    /// ... spent busy on an always-ready resource (`busy_on_a_hot_resource`) instead of asleep
+    pub user_outbound_busy: bool,
     /// ... and adds a header `x-added` with a value of this many bytes (0 = none) to every request
     pub user_outbound_adds_header: usize,
     /// the network is bound on a dual-stack IPv6 address (its peers are IPv4 hosts all the same)
@@ -397,6 +399,7 @@ impl World {
             jitter: Duration::from_millis(0),
             user_outbound_layer: false,
             user_outbound_delay: Duration::ZERO,
+            user_outbound_busy: false,
             user_outbound_adds_header: 0,
             dual_stack: false,
             vary_benign: true,
@@ -483,6 +486,7 @@ impl World {
         if spec.user_outbound_layer {
             type Inner = tower::util::BoxService<Request<Bytes>, Response<Bytes>, anemo::Error>;
             let delay = spec.user_outbound_delay;
+            let busy = spec.user_outbound_busy;
             let add = spec.user_outbound_adds_header;
             b = b.outbound_request_layer(tower::layer::layer_fn(move |inner: Inner| -> Inner {
                 if add > 0 {
@@ -492,7 +496,7 @@ impl World {
                 if delay.is_zero() {
                     inner
                 } else {
-                    tower::util::BoxService::new(HoldBack { inner: Arc::new(tokio::sync::Mutex::new(inner)), delay })
+                    tower::util::BoxService::new(HoldBack { inner: Arc::new(tokio::sync::Mutex::new(inner)), delay, busy })
                 }
             }));
         }
@@ -556,6 +560,7 @@ impl World {
 struct HoldBack {
     inner: Arc<tokio::sync::Mutex<tower::util::BoxService<Request<Bytes>, Response<Bytes>, anemo::Error>>>,
     delay: Duration,
+    busy: bool,
 }
 
 impl tower::Service<Request<Bytes>> for HoldBack {
@@ -566,9 +571,13 @@ impl tower::Service<Request<Bytes>> for HoldBack {
         std::task::Poll::Ready(Ok(()))
     }
     fn call(&mut self, req: Request<Bytes>) -> Self::Future {
-        let (inner, delay) = (self.inner.clone(), self.delay);
+        let (inner, delay, busy) = (self.inner.clone(), self.delay, self.busy);
         Box::pin(async move {
-            tokio::time::sleep(delay).await;
+            if busy {
+                busy_on_a_hot_resource(delay).await;
+            } else {
+                tokio::time::sleep(delay).await;
+            }
             let mut g = inner.lock().await;
             futures::future::poll_fn(|cx| g.poll_ready(cx)).await?;
             let fut = g.call(req);
